@@ -84,6 +84,7 @@ fn deep_doc(f: Fmt, depth: usize) -> Vec<u8> {
     }
 }
 
+thread_local! { static LAST_PANIC: std::cell::RefCell<String> = std::cell::RefCell::new(String::new()); }
 fn main() {
     let a = parse_args();
     // subprocess mode: --deep <fmt index> <depth>  (a stack overflow aborts the whole process)
@@ -96,7 +97,7 @@ fn main() {
     let mut sum = Summary::default();
     sum.rule = "case = (parser, input) where input is a valid seed document, one of its single-edit mutants (deletion, truncation, byte flip, insertion of a byte), a splice of a format-specific dictionary token (delimiters, escapes, unusual IRIs incl. IPv6 hosts, bad labels/tags, XML/JSON constructs), or invalid UTF-8; plus deep nesting (collections, property lists, quoted triples, XML elements, JSON arrays) in a subprocess on a 2 MiB thread; \
 non-trivial = the parser yielded at least one statement from a mutated input (so term validity is actually exercised) or rejected a mutant of a valid document; distinct = distinct (parser, input bytes)".into();
-    std::panic::set_hook(Box::new(|_| {}));
+    std::panic::set_hook(Box::new(|info| { LAST_PANIC.with(|l| *l.borrow_mut() = format!("{info}").replace('\n', " ")); }));
     let base = Rng::new(a.seed);
     let mut seen = std::collections::HashSet::new();
     let range: Vec<usize> = match a.only { Some(i) => vec![i], None => (0..a.n).collect() };
@@ -121,7 +122,8 @@ non-trivial = the parser yielded at least one statement from a mutated input (so
         let shown = String::from_utf8_lossy(&data).to_string();
         let key = format!("{f:?}|{shown}");
         match res {
-            Err(_) => { sum.oracle_failures.push((idx.to_string(), format!("parser {f:?} PANICKED ({profile} build) on input {shown:?}"))); sum.bump(&format!("{f:?}:panic")); }
+            Err(_) => { let msg = LAST_PANIC.with(|l| l.borrow().clone()); let msg: String = msg.chars().take(200).collect();
+                sum.oracle_failures.push((idx.to_string(), format!("parser {f:?} PANICKED ({profile} build): {msg}; input {shown:?}"))); sum.bump(&format!("{f:?}:panic")); }
             Ok((n, bad)) => {
                 if !bad.is_empty() { sum.oracle_failures.push((idx.to_string(), format!("parser {f:?} ({profile} build) yielded an invalid term: {}; input {shown:?}", bad[0]))); }
                 sum.bump(&format!("{f:?}:{}", if n > 0 { "yielded" } else { "rejected-or-empty" }));
